@@ -646,4 +646,76 @@ theorem node_initLike (ha : ListLike oa Va absA) (hb : ListLike ob Vb absB) {a :
 
 end node
 
+/-! ### fresh list-like iterators as packages; the fold of `pm2` -/
+
+/-- what `dedupSeries.Iterator` yields: the replicas folded from the left with `pm2` -/
+def pmFold (r : List Sample) (rs : List (List Sample)) : List Sample := rs.foldl (pm2 minT) r
+
+/-- the iterator is list-like and, being fresh, will yield `L` -/
+def GoodL (i : AnyIt) (L : List Sample) : Prop :=
+  ∃ (V : i.σ → Prop) (abs : i.σ → List Sample), ListLike i.ops V abs ∧ InitLike i.ops V abs i.st L
+
+theorem drainN_spec {σ : Type} {o : Ops σ} {V : σ → Prop} {abs : σ → List Sample}
+    (h : ListLike o V abs) : ∀ (n : Nat) (s : σ), V s → abs s ≠ [] →
+      drainN o n s = (abs s).tail.take n := by
+  intro n
+  induction n with
+  | zero => intro s _ _; simp [drainN]
+  | succ n ih =>
+    intro s hV hne
+    unfold drainN
+    simp only [h.nextOk s hV hne]
+    cases htl : (abs s).tail with
+    | nil => simp
+    | cons x tl =>
+      have hne' : abs (o.next s).1 ≠ [] := by rw [h.nextAbs s hV hne, htl]; simp
+      simp only [List.isEmpty_cons, Bool.not_false, if_true]
+      rw [h.atS _ (h.nextV s hV hne) hne', h.nextAbs s hV hne, htl]
+      simp only [List.head?_cons, List.take_succ_cons]
+      rw [ih _ (h.nextV s hV hne) hne', h.nextAbs s hV hne, htl]
+      rfl
+
+theorem drain_good {i : AnyIt} {L : List Sample} (h : GoodL i L) : drain i = L := by
+  obtain ⟨V, abs, hl, hi⟩ := h
+  show drainN i.ops (i.ops.fuel i.st + 1) i.st = L
+  unfold drainN
+  simp only [hi.nextOk]
+  cases hL : L with
+  | nil => simp
+  | cons x tl =>
+    have hne : abs (i.ops.next i.st).1 ≠ [] := by rw [hi.nextAbs, hL]; simp
+    simp only [List.isEmpty_cons, Bool.not_false, if_true]
+    rw [hl.atS _ hi.nextV hne, hi.nextAbs, hL]
+    simp only [List.head?_cons]
+    rw [drainN_spec hl _ _ hi.nextV hne, hi.nextAbs, hL]
+    have := hi.fuel
+    rw [hL] at this
+    simp only [List.length_cons] at this
+    simp only [List.tail_cons]
+    rw [List.take_of_length_le (by omega)]
+
+theorem pmFold_mem (rs : List (List Sample)) : ∀ (L : List Sample) (z : Sample),
+    z ∈ rs.foldl (pm2 minT) L → z ∈ L ∨ ∃ q ∈ rs, z ∈ q := by
+  induction rs with
+  | nil => intro L z h; exact Or.inl h
+  | cons r rs ih =>
+    intro L z h
+    rcases ih _ z h with h | ⟨q, hq, hz⟩
+    · rcases pm2_mem h with h | h
+      · exact Or.inl h
+      · exact Or.inr ⟨r, by simp, h⟩
+    · exact Or.inr ⟨q, by simp [hq], hz⟩
+
+theorem pmFold_sorted (rs : List (List Sample)) : ∀ (L : List Sample), SSorted L →
+    (∀ x ∈ L, minT < x.t) → (∀ q ∈ rs, ∀ x ∈ q, minT < x.t) →
+    SSorted (rs.foldl (pm2 minT) L) := by
+  induction rs with
+  | nil => intro L h _ _; exact h
+  | cons r rs ih =>
+    intro L _ hL h
+    have hr := h r (by simp)
+    have := pm2_sorted (lastT := minT) (la := L) (lb := r)
+      (fun x hx => hL x (List.mem_of_mem_head? hx)) (fun x hx => hr x (List.mem_of_mem_head? hx))
+    exact ih _ this.1 this.2 (fun q hq => h q (by simp [hq]))
+
 end Thanos.Dedup
